@@ -215,6 +215,7 @@ def pick_dR(rng, big):
 
 def make_ref(rng, P, d, R, strict=False):
     mx = [max([p[j] for p in P] + [0]) for j in range(d)]
+    if not strict and rng.random() < 0.12: return mx      # every objective has a point ON the reference boundary
     return [m + rng.choice([1, 1, 1, 2, 3] if strict else [0, 1, 1, 1, 2, 3]) for m in mx]
 
 def case_lines(q, d, k, ref, P):
@@ -224,7 +225,7 @@ def gen_case(rng, big, kind=None):
     kind = kind or rng.choice(["R", "R", "H", "H", "H", "K", "K", "S"])
     d, R = pick_dR(rng, big)
     if kind == "R":
-        n = rng.choice([1, 2, 3, 5, 8, 13, 20, 30, 40] + ([80, 150] if big else []))
+        n = rng.choice([1, 2, 3, 5, 8, 13, 20, 30, 40] + ([60, 80] if big else []))
         P = rng_points(rng, d, n, R); return case_lines("R", d, 0, [0] * d, P)
     if kind == "H":
         n = rng.choice([1, 2, 3, 4, 6, 9, 14, 20, 30, 40] + ([60] if big else []))
@@ -305,7 +306,7 @@ def main():
     tmpd = os.path.join(BUILD, "tmp", PID); os.makedirs(tmpd, exist_ok=True)
     big = ck.tier == "thorough"
     env = {"OMP_NUM_THREADS": "2"}
-    cases = load_cases(ck, lambda: gen_case(ck.rng, big), 700 if not big else 8000)
+    cases = load_cases(ck, lambda: gen_case(ck.rng, big), 3000 if not big else 30000)
     main_cases = [c for c in cases if c[0].split()[1] != "N"]
     noref_cases = [c for c in cases if c[0].split()[1] == "N"]
 
@@ -317,7 +318,8 @@ def main():
         return out
     def keyfn(msg, case):
         q, d, k, ref, P, _ = parse_case(case)
-        return "%s d=%d n=%d: %s" % (q, d, len(P), msg)
+        touch = q != "R" and any(x == r for p in P for x, r in zip(p, ref))
+        return "%s d=%d n=%d%s: %s" % (q, d, len(P), " point-on-reference-boundary" if touch else "", msg)
     r = correspond(ck, main_cases, model, exe, monitor, tmpd, compare=compare, impl_env=env,
                    what="C13Model (rank_list, hv_spec, contribs_spec, best_subset_hv) vs shark nonDominatedSort/Hypervolume*",
                    search=search, keyfn=keyfn)
@@ -325,10 +327,11 @@ def main():
 
     # ---- separate stream: contribution overloads WITHOUT reference point
     if not ck.replay:
-        noref_cases += [gen_case(ck.rng, big, "N") for _ in range(120 if not big else 1500)]
+        noref_cases += [gen_case(ck.rng, big, "N") for _ in range(300 if not big else 3000)]
     nr = {"cases": len(noref_cases), "ok": 0, "k_exceeds_candidates_bad": 0, "other_bad": 0, "crash": 0}
     if noref_cases:
-        io = run_cases(exe, noref_cases, os.path.join(tmpd, "noref_in.txt"), env=env)
+        # one process per case: the undefined behaviour of one query must not be blamed on the next
+        io = [run_cases(exe, [c], os.path.join(tmpd, "noref_in.txt"), env=env, timeout=120)[0] for c in noref_cases]
         reported = set()
         for c, (o, rc, e) in zip(noref_cases, io):
             q, d, k, ref, P, _ = parse_case(c)
